@@ -85,6 +85,61 @@ func runHmap(seed uint64, scale int, out string, _ string) *summary {
 		phase := 0 // 0 fill, 1 churn, 2 drain, 3 refill
 		nops := 1800 + r.intn(1500)
 		shadow := map[int]int{}
+		// scripted collision clusters: a chain of three or more buckets under one root bucket, one of its
+		// middle buckets emptied again, then a resize (growth forced by fresh keys / shrink by the drain
+		// phase), then lookups of every key of the cluster
+		type forcedOp struct {
+			kind byte // S D G
+			k    int
+		}
+		var forced []forcedOp
+		var cluster []int
+		growTarget := -1 // table length that ends the forced growth
+		fresh := 10_000_000 + cn*1_000_000
+		startCluster := func() {
+			if m.TableLen() > 256 {
+				return
+			}
+			mask := uint64(m.TableLen() - 1)
+			cl, oc, _ := m.Chains()
+			target := -1
+			for tries := 0; tries < 50 && target < 0; tries++ {
+				b := r.intn(len(cl))
+				if cl[b] == 1 && oc[b] == 0 {
+					target = b
+				}
+			}
+			if target < 0 {
+				return
+			}
+			cluster = cluster[:0]
+			nk := 15 + r.intn(11)
+			for c := 5_000_000 + cn*100_000; len(cluster) < nk && c < 5_000_000+cn*100_000+90_000; c++ {
+				if int(otter.VerifH1(m.Hash(c))&mask) == target {
+					cluster = append(cluster, c)
+				}
+			}
+			if len(cluster) < 15 {
+				cluster = cluster[:0]
+				return
+			}
+			for _, c := range cluster {
+				forced = append(forced, forcedOp{'S', c})
+			}
+			// empty one whole middle bucket (a bucket holds 5 entries; they fill in insertion order)
+			per := 5
+			mid := 1 + r.intn(len(cluster)/per-2+1)
+			if (mid+1)*per >= len(cluster) {
+				mid = 1
+			}
+			for j := mid * per; j < (mid+1)*per; j++ {
+				forced = append(forced, forcedOp{'D', cluster[j]})
+			}
+			if r.chance(60) {
+				growTarget = m.TableLen() * 2
+			}
+			sum.Dist["collision_cluster_with_hole"]++
+		}
 		for i := 0; i < nops; i++ {
 			sum.Ops++
 			if i == nops*4/10 {
@@ -96,8 +151,26 @@ func runHmap(seed uint64, scale int, out string, _ string) *summary {
 			if i == nops*9/10 {
 				phase = 3
 			}
+			if len(forced) == 0 && (i == nops/8 || i == nops*5/10 || i == nops*58/100) {
+				startCluster()
+			}
+			if len(forced) == 0 && growTarget > 0 {
+				if m.TableLen() >= growTarget || m.TableLen() > 512 {
+					growTarget = -1
+				} else {
+					fresh++
+					forced = append(forced, forcedOp{'S', fresh})
+				}
+			}
 			k := r.intn(keyspace)
-			if r.chance(15) && len(shadow) > 0 {
+			var fo *forcedOp
+			if len(forced) > 0 {
+				f := forced[0]
+				forced = forced[1:]
+				fo = &f
+				k = f.k
+			}
+			if fo == nil && r.chance(15) && len(shadow) > 0 {
 				// aim at a crowded bucket: a key that collides with an existing one under the current seed
 				mask := uint64(m.TableLen() - 1)
 				target := otter.VerifH1(m.Hash(r.intn(keyspace))) & mask
@@ -112,7 +185,17 @@ func runHmap(seed uint64, scale int, out string, _ string) *summary {
 			x := r.intn(100)
 			pSet := []int{70, 45, 2, 70}[phase]
 			pDel := []int{5, 35, 88, 5}[phase]
-			if phase == 2 && len(shadow) > 0 && r.chance(92) {
+			if fo != nil {
+				switch fo.kind {
+				case 'S':
+					x = 0
+				case 'D':
+					x = pSet
+				default:
+					x = 96
+				}
+			}
+			if fo == nil && phase == 2 && len(shadow) > 0 && r.chance(92) {
 				// drain: delete keys that are present (smallest first, deterministic)
 				best := -1
 				for kk := range shadow {
@@ -188,6 +271,10 @@ func runHmap(seed uint64, scale int, out string, _ string) *summary {
 				}
 				lastG, lastS = g, s
 				hashDump(k)
+				// after every resize look up every key of the last collision cluster
+				for _, c := range cluster {
+					forced = append(forced, forcedOp{'G', c})
+				}
 			}
 			if m.Size() != len(shadow) {
 				sum.fail("C15", "size", "Size() differs from the number of keys", fmt.Sprintf("case %d size=%d keys=%d", cn, m.Size(), len(shadow)))
